@@ -764,6 +764,20 @@ func (e *Engine) waitGroup(op string, args []Value, g *Term, pos token.Pos) (Val
 			e.addOblig("panic", "sync: negative WaitGroup counter", e.posStr(pos, nil), And(ag, Cmp("bvslt", wgCount[k], BV(IntW, 0))))
 			out = Or(out, ag)
 		case "Wait":
+			// other "threads" may finish the outstanding work while this one waits (block hook)
+			for attempt := 0; attempt < e.hookLimit; attempt++ {
+				cur, ok := wgCount[k]
+				if !ok {
+					break
+				}
+				ng := prune(And(ag, Not(Eq(cur, BV(IntW, 0)))))
+				if ng == False || !e.runBlockHook(ng, pos) {
+					break
+				}
+			}
+			if cur, ok := wgCount[k]; ok {
+				c = cur
+			}
 			nz := Not(Eq(c, BV(IntW, 0)))
 			e.addOblig("blocked", "WaitGroup.Wait blocks forever (counter not zero)", e.posStr(pos, nil), And(ag, nz))
 			out = Or(out, And(ag, Not(nz)))
